@@ -194,7 +194,9 @@ def cfgRnd : Rnd CKey Nat :=
     object, or nothing. `cre` is the remote CreateIndex. The guard as coded for policies:
     a returned object whose hash differs from the listed one and whose ModifyIndex is lower, or a
     missing object that the list shows as just created (ModifyIndex = CreateIndex), fails the round
-    BEFORE any write. Tokens have no guard (`guard = false`); roles never batch-read. -/
+    BEFORE any write. `aclTokenReplicator.ensureRemoteConsistent` is the same test on accessor IDs
+    (`guard = true` for policies and tokens alike); roles never batch-read (they re-use the list).
+    The `guard` parameter only exists to state what goes wrong without it. -/
 
 def fetched (ov : List (κ × Option (Item κ η))) (x : Item κ η) : Option (Item κ η) :=
   match ov.find? (fun o => o.1 = x.id) with
